@@ -1,6 +1,6 @@
 (* C19 — Bytes on the wire are those of the published 5.x protocol. *)
 From V Require Import lib.Base lib.Decimal model.Ladder model.Brine model.Channel model.Published proofs.BrineP proofs.PublishedP
-  proofs.ChannelP proofs.WireP gen.Gen_brine gen.Gen_consts gen.Gen_channel gen.Gen_protocol.
+  proofs.ChannelP proofs.WireP model.PubCodec proofs.PubCodecP gen.Gen_brine gen.Gen_consts gen.Gen_channel gen.Gen_protocol.
 Open Scope N_scope.
 
 (* 1. what the code says now = what the published format says: tags, immediates, ladders, struct formats,
@@ -24,6 +24,12 @@ Theorem c19_encoder_is_published :
   Brine.str_ladder = pub_str_ladder /\ Brine.tup_ladder = pub_tup_ladder /\ Brine.int_ladder = pub_int_ladder.
 Proof. exact model_ladders_published. Qed.
 Print Assumptions c19_encoder_is_published.
+(* 2b. and, value by value: for EVERY value the encoder emits exactly what the published encoding - written out directly in
+       model/PubCodec.v from the format description: explicit tag bytes, 0/1-4/one-byte/four-byte length classes, 0x50+i
+       immediates, ASCII decimal integers, UTF-8 text, "!d"/"!dd" floats - prescribes (same bytes, same refusals) *)
+Theorem c19_emits_the_published_encoding : forall P v, dump P v = pub_dump (sp P) (maxdigits P) v.
+Proof. exact dump_is_published. Qed.
+Print Assumptions c19_emits_the_published_encoding.
 
 (* 3. shortest form: for every length below 2^32 each ladder emits a header no longer than any header the format admits
       for that length, and integers use the one-byte immediate whenever the format has one *)
